@@ -81,7 +81,7 @@ class Comm:
 
 
 def cases_start(tier):
-    for n_eval in (0, 1, 2):
+    for n_eval in (0, 1, 2) + ((3, 4) if tier == "thorough" else ()):
         for fault in ("none", "evaluator-raises", "child-reports-error", "child-reports-empty-error"):
             if fault == "evaluator-raises" and n_eval == 0:
                 continue
@@ -228,7 +228,7 @@ def scn_props(T, case):
 
 # ------------------------------------------------------------------------------------ child side: _PluginOptimizer._callback / _request
 def cases_child(tier):
-    for retry in (0, 2):
+    for retry in (0, 2) + ((1, 5) if tier == "thorough" else ()):
         for answer in ("results", "abort"):
             yield "write_retries=%d/%s" % (retry, answer), {"retry": retry, "answer": answer}
 
